@@ -54,6 +54,10 @@ Setup ==
             NR("b1", "generation", <<NamePL("ex", X)>>, << <<"entity", Ref(NamePL("ex", Y))>> >>, <<>>),
             NR("b1", "entity", <<NamePL("ex", X)>>, <<>>, <<>>),
             NR("b1", "agent", <<NameQN("zz", A, X)>>, <<>>, <<>>) >>
+    [] Scenario = "c09c" ->      \* d1 (bundle b1 with a record) has ALREADY been flattened once
+         SetupWorld \o
+         << NR("b1", "entity", <<NameQN("ex", A, X)>>, <<>>, <<>>),
+            [op |-> "Flattened", h |-> "d1", out |-> "f0"] >>
     [] Scenario = "c09b" ->      \* d1 and d2 each hold a bundle A/b1; the two bundles share an equal record
          SetupWorld \o
          << [op |-> "Bundle", h |-> "d2", id |-> NameQN("ex", A, <<"b1">>), out |-> "b2"],
@@ -95,11 +99,16 @@ Setup ==
                                  << <<"startTime", [t |-> "dt", v |-> "t1"]>> >>, <<>>)
                ELSE NR(h, "entity", <<NameQN("ex", A, X)>>, <<>>,
                        << <<NameQN("ex", A, <<"attr">>), [t |-> "int", v |-> "1"]>> >>)]
-    [] Scenario = "c12" ->
+    [] Scenario = "c12" ->       \* (d2 holds a record too: as an add_bundle argument it yields a non-empty bundle)
          SetupWorld \o
          << NR("d1", "entity", <<NamePL("ex", X)>>, <<>>,
                << <<NameQN("ex", A, <<"attr">>), [t |-> "int", v |-> "1"]>> >>),
-            NR("b1", "agent", <<NamePL("ex", Y)>>, <<>>, <<>>) >>
+            NR("b1", "agent", <<NamePL("ex", Y)>>, <<>>, <<>>),
+            NR("d2", "entity", <<NamePL("ex", Y)>>, <<>>, <<>>) >>
+    [] Scenario = "c12b" ->      \* d2 has a record and a bundle that holds nothing
+         SetupWorld \o
+         << NR("d2", "entity", <<NamePL("ex", Y)>>, <<>>, <<>>),
+            [op |-> "Bundle", h |-> "d2", id |-> NameQN("ex", A, <<"b2">>), out |-> "b2"] >>
 NSetup == Len(Setup)
 
 Init == ms = RunF(InitMs("empty"), Setup, NSetup) /\ hist = Setup
@@ -144,6 +153,9 @@ RecMenu ==
          \cup
          { [k |-> "generation", id |-> <<>>,
             formals |-> << <<"entity", Ref(NamePL("ex", X))>> >>, extras |-> <<>>] }
+    [] Scenario = "c09c" ->
+         { [k |-> "entity", id |-> <<NameQN("ex", A, Y)>>, formals |-> <<>>, extras |-> <<>>],
+           [k |-> "generation", id |-> <<>>, formals |-> << <<"entity", Ref(NameQN("ex", A, X))>> >>, extras |-> <<>>] }
     [] Scenario = "c09b" ->
          { [k |-> "entity", id |-> <<NameQN("ex", A, X)>>, formals |-> <<>>, extras |-> e]
              : e \in { <<>>, << <<NameQN("ex", A, <<"attr">>), [t |-> "int", v |-> "1"]>> >> } }
@@ -179,7 +191,7 @@ RecMenu ==
             extras |-> << <<NameQN("ex", A, <<"attr">>), [t |-> "lit", v |-> "s1", dt |-> QN(d[1], d[2], <<"dtype">>)]>> >>]
              : d \in { <<"ex", A>>, <<"e3", A>>, <<"q", A>>, <<"q", C>> } }
          \cup { [k |-> "entity", id |-> <<NameQN("ex", A, X)>>, formals |-> <<>>, extras |-> <<>>] }
-    [] Scenario = "c12" ->
+    [] Scenario \in {"c12", "c12b"} ->
          { [k |-> "entity", id |-> <<NamePL("ex", Y)>>, formals |-> <<>>, extras |-> <<>>],
            [k |-> "entity", id |-> <<NamePL("ex", X)>>, formals |-> <<>>,
             extras |-> << <<NameQN("ex", A, <<"attr">>), [t |-> "int", v |-> "0"]>> >>] }
@@ -191,6 +203,7 @@ Targets ==
     [] Scenario = "c08d" -> {"b1", "b2"}
     [] Scenario = "c08e" -> {"b1", "d1"}
     [] Scenario = "c09b" -> {"b1", "b2", "d1"}
+    [] Scenario = "c09c" -> {"b1", "d1", "f0"}
     [] OTHER -> Live
 
 ActsNewRec == { NR(h, t.k, t.id, t.formals, t.extras) : h \in Targets \cap Live, t \in RecMenu }
@@ -213,6 +226,8 @@ ActsCopy == { [op |-> "CopyRec", r |-> r, out |-> Fresh] : r \in RecHandles }
 ActsMutate ==   \* C12 follow-up mutators on any live object
   { [op |-> "AddAttrs", r |-> r, form |-> "pairs",
      pairs |-> << <<NameQN("ex", A, <<"attr">>), [t |-> "int", v |-> "7"]>> >>] : r \in RecHandles }
+  \cup { [op |-> "AddAttrs", r |-> r, form |-> "pairs",      \* a name in a namespace nobody has registered yet
+           pairs |-> << <<NameQN("mut", AB, <<"attr">>), [t |-> "int", v |-> "7"]>> >>] : r \in RecHandles }
   \cup { [op |-> "AddNs", h |-> h, p |-> "mut", u |-> C] : h \in Live }
   \cup { [op |-> "SetDefault", h |-> h, u |-> AB] : h \in {x \in Live : ms.mgr[ms.con[x].mgr].dflt \in {NONE, AB}} }
 
@@ -237,11 +252,14 @@ Menu ==
     [] Scenario \in {"c18", "c18b"} -> ActsNewRec \cup ActsAddRecord \cup ActsUpdate \cup ActsAddBundle
                            \cup ActsDerive \cup ActsGet
     [] Scenario = "c09b" -> ActsNewRec \cup ActsUpdate \cup {a \in ActsDerive : a.op = "Flattened"}
+    [] Scenario = "c09c" -> ActsNewRec \cup {a \in ActsDerive : a.op = "Flattened"} \cup {a \in ActsUpdate : a.h = "d1"}
     [] Scenario = "c09" -> ActsNewRec \cup ActsUpdate \cup ActsAddBundle \cup ActsBundle
                            \cup {a \in ActsDerive : a.op = "Flattened"}
     [] Scenario \in {"c08", "c08b", "c08c", "c08d", "c08e"} -> ActsNewRec \cup {a \in ActsDerive : a.op = "Unified"}
+    [] Scenario = "c12b" -> ActsNewRec \cup ActsDerive \cup ActsMutate \cup ActsUpdate
     [] Scenario = "c12" -> ActsNewRec \cup ActsAddRecord \cup ActsUpdate \cup ActsAddBundle
                            \cup ActsDerive \cup ActsMutate \cup ActsCopy
+                           \cup {a \in ActsBundle : a.h = "d2"}        \* (an empty bundle in d2)
 
 (* documents are only derived from containers (flattened/unified are document or bundle methods) *)
 Applicable(a) ==
